@@ -52,12 +52,15 @@ def in_L(toks, roles):
         return frozenset(out)
     @lru_cache(maxsize=None)
     def unary(i):
-        out = set()
+        # Primary := Token POSTFIX* ; Token := Atom | PREFIX Primary
+        out = set(atom(i))
         if i < n and toks[i][0] == "op" and toks[i][1] in prefix:
             out |= unary(i + 1)
-        for j in atom(i):
-            out.add(j)
-            if j < n and toks[j][0] == "op" and toks[j][1] in postfix: out.add(j + 1)
+        work = list(out)
+        while work:
+            j = work.pop()
+            if j < n and toks[j][0] == "op" and toks[j][1] in postfix and (j + 1) not in out:
+                out.add(j + 1); work.append(j + 1)
         return frozenset(out)
     @lru_cache(maxsize=None)
     def chain(i):
